@@ -9,7 +9,8 @@ PROP = 'C15'
 VARIANTS = ['asan']
 # inserted layout / comment forms: (text, needs newline after)
 FORMS = [('#x', True), ('//x', True), ('/*x*/', False), ('/* multi\n line */', False), ('#', True), ('//', True), ('/**/', False),
-         ('#### hh', True), ('   ', False), ('\n\n', False), ('\t', False), ('/* "q" \'s\' ${v} { } = , */', False), ('# "unbalanced', True), ('/***/', False)]
+         ('#### hh', True), ('   ', False), ('\n\n', False), ('\t', False), ('/* "q" \'s\' ${v} { } = , */', False), ('# "unbalanced', True), ('/***/', False),
+         ('/* a * b */', False), ('/** doc */', False), ('/*** x ***/', False), ('/* 2*3 / 4 */', False), ('/* star*\n *next */', False)]
 ANN = [('# hello world', True, 'hello world'), ('// slashes', True, 'slashes'), ('/* c style */', False, 'c style'),
        ('/*  multi\n   line  */', False, 'multi\n   line'), ('####   hashes  ', True, 'hashes'), ('////deep', True, 'deep'), ('/*tight*/', False, 'tight'),
        ('#', True, None), ('//', True, None), ('/**/', False, None), ('/* */', False, None), ('###', True, None)]
@@ -18,6 +19,12 @@ RULE = ('grammar-derived accepted texts and token-mutated rejected texts x every
         'return code and values-only tree hash must equal the uncommented run. Annotation clause (support on): a comment placed immediately before a top-level '
         'scalar / non-empty-list assignment is returned trimmed by the comment getter, printed, and read back by a re-parse of the print. '
         'non-trivial: the insertion point is inside an item or the comment is empty/multi-line; distinct = (text, boundary, form, flag)' % len(FORMS))
+
+
+def flagsets(spec):
+    if spec.get('ign'):
+        return (0, F_COMMENTS, core.F_IGNORE_UNKNOWN, core.F_IGNORE_UNKNOWN | F_COMMENTS)
+    return (0, F_COMMENTS)
 
 
 def join(toks):
@@ -74,6 +81,13 @@ def gen(tier, seed):
         variants = [toks]
         for _ in range(2):
             variants.append(mutate(rng, toks))
+        # one variant with undeclared items (judged under ignore-unknown as well)
+        unk = rng.choice([[['name', 'unk', 'unk'], ['=', '=', None], ['val', '5', '5']],
+                          [['name', 'unk', 'unk'], ['title', 'ttl', 'ttl'], ['{', '{', None], ['name', 'a', 'a'], ['=', '=', None], ['val', '1', '1'], ['}', '}', None]],
+                          [['name', 'unk', 'unk'], ['+=', '+=', None], ['{', '{', None], ['val', '1', '1'], [',', ',', None], ['val', '2', '2'], ['}', '}', None]],
+                          [['name', 'unk', 'unk'], ['(', '(', None], ['val', 'x', 'x'], [')', ')', None]],
+                          [['name', 'unk', 'unk'], ['{', '{', None], ['name', 'in', 'in'], ['{', '{', None], ['}', '}', None], ['}', '}', None]]])
+        variants.append((toks + unk) if rng.random() < 0.5 else (unk + toks))
         for vi, tk in enumerate(variants):
             # annotation probes on the unmutated text only
             ann = []
@@ -94,7 +108,7 @@ def gen(tier, seed):
                     ann.append(k)
                 rng.shuffle(ann)
                 ann = ann[:3]
-            yield {'decls': [d.to_json() for d in decls], 'toks': tk, 'ann': ann, 'mut': vi}
+            yield {'decls': [d.to_json() for d in decls], 'toks': tk, 'ann': ann, 'mut': vi, 'ign': vi == 3}
 
 
 def depth_at(toks, k):
@@ -111,7 +125,7 @@ def script(spec):
     decls = [D.from_json(j) for j in spec['decls']]
     lines, sid = schema.emit_schema(decls)
     toks = spec['toks']
-    for fl in (0, F_COMMENTS):
+    for fl in flagsets(spec):
         lines.append('note base')
         lines.append('init 0 %d %d' % (sid, fl))
         lines.append('parse_buf 0 %s' % hx(join(toks)))
@@ -146,18 +160,19 @@ def judge(spec, events, death):
         # which insertion was in flight?
         nparse = len([e for e in events if e.get('ev') == 'r' and e.get('op') == 'parse_buf'])
         per_flag = 1 + (len(toks) + 1) * len(FORMS)
-        idx = nparse % per_flag if nparse < 2 * per_flag else -1
+        nfl = len(flagsets(spec))
+        idx = nparse % per_flag if nparse < nfl * per_flag else -1
         if idx > 0:
             form = FORMS[(idx - 1) % len(FORMS)][0]
-            where = 'comments-%s' % ('on' if nparse >= per_flag else 'off')
+            where = 'flagset-%d' % (nparse // per_flag)
         else:
-            form, where = '?', 'annotation-probe' if nparse >= 2 * per_flag else 'base'
+            form, where = '?', 'annotation-probe' if nparse >= nfl * per_flag else 'base'
         v.bad('crash:%s@%s:%s' % (death['kind'], death['where'], 'empty-comment' if form in ('#', '//', '/**/') else 'comment'),
               'inserting %r (%s): %s' % (form, where, death['text'][-500:]))
         return v
     evs = [e for e in events if e.get('ev') in ('note', 'vhash', 'get', 'printed') or (e.get('ev') == 'r' and e.get('op') in ('parse_buf', 'print_parse'))]
     pos = 0
-    for fl in ('off', 'on'):
+    for fl in [('on' if f & F_COMMENTS else 'off') + ('+ignore-unknown' if f & core.F_IGNORE_UNKNOWN else '') for f in flagsets(spec)]:
         if pos + 2 >= len(evs) or evs[pos].get('ev') != 'note':
             v.bad('harness:short-log', 'base events missing')
             return v
